@@ -87,10 +87,31 @@ def san_for(kind, host_i):
     return (("DNS", "unrelated.example"),)
 
 
-def _lattice_body(topo, flavour_py, never_cn, cr, ah, fp, sh, ctxk, issuer, cak, sank, host_i, retries_on, proxy_issuer, proxy_pin):
-    vals = [concretize(v) for v in (topo, flavour_py, never_cn, cr, ah, fp, sh, ctxk, issuer, cak, sank, host_i, retries_on,
-                                    proxy_issuer, proxy_pin)]
-    return N._untraced(_point)(*vals)
+def dims_of(part):
+    """Settings dimensions of one partition: (cert_reqs, assert_hostname/server_hostname, fingerprint, CA config, host form,
+    proxy pin).  Index 4 of the second dimension stands for 'assert_hostname unset + server_hostname override'."""
+    return [part["crs"], [0, 1, 2, 3, 4], part["fps"], part["caks"], part["hosts"], [False, True] if part["topo"] in (2, 3) else [False]]
+
+
+def _lattice_body(idx):
+    """Client settings = ONE solver variable over the partition's product space (each point exactly one path); the server side
+    (issuer of the peer's certificate, its SAN shape, the proxy's issuer) is enumerated by the harness inside every path."""
+    from kit.h import decode_point
+    cr, ahx, fp, cak, host_i, proxy_pin = decode_point(idx, dims_of(P))
+    ah, sh = (0, True) if ahx == 4 else (ahx, False)
+    return N._untraced(_all_servers)(P.topo, P.py, P.never_cn, cr, ah, fp, sh, P.ctxs[0], cak, host_i, P.retries, proxy_pin)
+
+
+def _all_servers(topo, flavour_py, never_cn, cr, ah, fp, sh, ctxk, cak, host_i, retries_on, proxy_pin):
+    for issuer in (0, 1, 2):
+        for sank in ((0, 1, 2, 3) if host_i in (2, 3) else (0, 1, 2)):
+            for proxy_issuer in ((0, 2) if topo in (2, 3) else (0,)):
+                if not _point(topo, flavour_py, never_cn, cr, ah, fp, sh, ctxk, issuer, cak, sank, host_i, retries_on,
+                              proxy_issuer, proxy_pin):
+                    from kit import h
+                    h.INFO["why"] = "[server: issuer=%d san=%d proxy_issuer=%d] %s" % (issuer, sank, proxy_issuer, h.INFO.get("why"))
+                    return False
+    return True
 
 
 def _point(topo, flavour_py, never_cn, cr, ah, fp, sh, ctxk, issuer, cak, sank, host_i, retries_on, proxy_issuer, proxy_pin):
@@ -291,24 +312,16 @@ def _show(kw):
             for k, v in kw.items()}
 
 
-def c07_lattice(topo: int, flavour_py: bool, never_cn: bool, cr: int, ah: int, fp: int, sh: bool, ctxk: int, issuer: int,
-                cak: int, sank: int, host_i: int, retries_on: bool, proxy_issuer: int, proxy_pin: bool) -> bool:
+def c07_lattice(idx: int) -> bool:
     """
-    pre: topo == P.topo and flavour_py == P.py and cr in P.crs and 0 <= ah <= 3 and fp in P.fps and ctxk in P.ctxs
-    pre: 0 <= issuer <= 2 and cak in P.caks and 0 <= sank <= 3 and (sank < 3 or host_i in (2, 3)) and host_i in P.hosts and 0 <= proxy_issuer <= 2
-    pre: never_cn or not P.fix_cn
-    pre: (not sh) or ah == 0
-    pre: (not retries_on) or P.retries
-    pre: (topo in (2, 3)) or (proxy_issuer == 0 and not proxy_pin)
-    pre: not (flavour_py and ctxk == 0 and cak == 0)
-    pre: not (ctxk == 3 and cr == 0 and False)
+    pre: 0 <= idx < P.n
     post: _
     """
-    return run(_lattice_body, topo, flavour_py, never_cn, cr, ah, fp, sh, ctxk, issuer, cak, sank, host_i, retries_on,
-               proxy_issuer, proxy_pin)
+    return run(_lattice_body, idx)
 
 
 def JOBS(tier):
+    from kit.h import space_size
     quick = tier == "quick"
     t = 170 if quick else 900
     jobs = []
@@ -317,11 +330,14 @@ def JOBS(tier):
             for ctxk in range(4):
                 if py and ctxk:
                     continue           # caller-supplied contexts are exercised with the ssl flavour
-                for fp in ([0, 1, 2, 3] if not quick else [0, 1, 2]):
-                    jobs.append({"func": "c07_lattice", "timeout": t, "path_timeout": 60, "samples": 1,
-                                 "part": {"topo": topo, "py": py, "ctxs": [ctxk], "fps": [fp], "crs": [0, 2, 3, 4] if quick else list(range(6)),
-                                          "caks": [0, 1, 2] if not quick else ([0, 2] if not py else [1, 2]), "hosts": [0, 2] if quick else [0, 1, 2, 3, 4],
-                                          "fix_cn": quick, "retries": not quick}})
+                for never_cn in ((True,) if quick else (True, False)):
+                    for retries in ((False,) if quick else (False, True)):
+                        part = {"topo": topo, "py": py, "ctxs": [ctxk], "fps": [0, 1, 2] if quick else [0, 1, 2, 3],
+                                "crs": [0, 2, 3, 4] if quick else list(range(6)),
+                                "caks": ([0, 2] if not (py and ctxk == 0) else [1, 2]) if quick else ([0, 1, 2, 3] if not (py and ctxk == 0) else [1, 2, 3]),
+                                "hosts": [0, 2] if quick else [0, 1, 2, 3, 4], "never_cn": never_cn, "retries": retries}
+                        part["n"] = space_size(dims_of(part))
+                        jobs.append({"func": "c07_lattice", "timeout": t, "path_timeout": 60, "samples": 1, "part": part})
     return jobs
 
 
@@ -329,9 +345,9 @@ EVIDENCE = {
     "bounds": {"quick": "4 topologies (direct, tunnel via http proxy, tunnel via https proxy, forwarding via https proxy) x {ssl, pyOpenSSL-like} "
                         "backend x cert_reqs {unset, REQUIRED, OPTIONAL, NONE} x assert_hostname {unset, False, matching, mismatching} x "
                         "assert_fingerprint {unset, right, wrong} x server_hostname override x caller SSLContext {none, default-like, "
-                        "check_hostname off, verify NONE} x issuer {in default store, in configured CA, unknown} x CA configuration {none, "
-                        "ca_cert_data} x SAN {matches URL host, matches only the alternative name, unrelated} x proxy issuer x proxy pin: "
-                        "every point enumerated (solver models of the precondition)",
+                        "check_hostname off, verify NONE} x CA configuration {none, ca_cert_data} x host {name, IPv4} x proxy pin: every settings point is a solver "
+                        "model of the precondition; per point the harness plays every server: issuer {default store, configured CA, unknown} x SAN "
+                        "{matches URL host, only the alternative name, unrelated, dNSName spelled like the IP} x proxy issuer",
                "thorough": "+ string spellings of cert_reqs, bad-length pin, ca_certs / ca_cert_dir, 5 host forms (trailing dot, IPv4, bracketed "
                            "IPv6, upper case), HAS_NEVER_CHECK_COMMON_NAME off, retries on"},
     "outside": ["real certificate chain validation and OpenSSL/pyOpenSSL hostname checking (C code, replaced by the contract in kit/tls.py)",
